@@ -3,6 +3,7 @@ import NixModel.Lemmas.C08Axis
 import NixModel.Lemmas.C08Slices
 import NixModel.Lemmas.C08View
 import NixModel.Lemmas.C08Lookup
+import NixModel.Lemmas.C08Band
 import NixModel.Props.C06
 
 /-!
@@ -700,6 +701,60 @@ def C08_axis_full : Prop :=
     | .ok w => AxisSpec dim (regionOf stop p e? sc) w
     | .error err => err = .indexError ∧ ∀ i, InDom (dimDom dim) i → ¬ InRegion dim (regionOf stop p e? sc) i
 
+/-- **Off the band, the full statement holds.** `OffBandAt dim x` is the condition on an end point alone: measured
+in samples from the first one (`X = (x − offset) / interval`; `x` itself on a set dimension) `|X| ≤ 10¹¹` and `|X|` is
+an integer or lies farther than `atol + rtol·|k|` (the generated `np.isclose` tolerances) from each of its two
+neighbouring integers `k`; nothing is asked on a range dimension.  It implies C07's `Separated` hypothesis for every
+sample, every sample coordinate (index `≤ 10¹¹`) satisfies it, and under it — for both end points of the scaled
+region — the one-axis statement of `C08_axis_full` holds: this is the precise hypothesis, and
+`C08_axis_full_counterexample` shows the statement fails strictly inside the band. -/
+theorem C08_axis_off_band :
+    (∀ dim x, OffBandAt dim x → SepAt dim x) ∧
+    (∀ dim, DimOK dim → ∀ k : Nat, k ≤ 100000000000 → OffBandAt dim (dimCoord dim k)) ∧
+    (∀ ticks u x, OffBandAt (.range ticks u) x) ∧
+    (∀ (stop : SliceMode) (dim : DimDesc) (p : Rat) (e? : Option Rat) (unit : Option Str) (sc : Rat),
+      DimOK dim → UnitRel unit dim sc →
+      OffBandAt dim (regionOf stop p e? sc).s → OffBandAt dim (regionOf stop p e? sc).e →
+      match axisSlice stop dim p e? unit with
+      | .ok w => AxisSpec dim (regionOf stop p e? sc) w
+      | .error err => err = .indexError ∧
+          ∀ i, InDom (dimDom dim) i → ¬ InRegion dim (regionOf stop p e? sc) i) := by
+  refine ⟨sepAt_of_offBandAt, offBandAt_on_sample, fun _ _ _ => trivial, ?_⟩
+  intro stop dim p e? unit sc hd hu hs he
+  exact C08_axis stop dim p e? unit sc hd hu (sepAt_of_offBandAt _ _ hs) (sepAt_of_offBandAt _ _ he)
+
+/-- **Region theorem off the band** (Tag; the multi-tag and feature forms follow the same way through
+`axesOK_of_offBand`): `C08_region` with the checkable per-axis hypothesis `AxesOffBand` — unit relation, descriptor
+inside C07, both end points of every axis `OffBandAt` — in place of `AxesOK`. -/
+theorem C08_region_off_band (t : TagDesc) (nrefs refidx : Nat) (ref : Arr) (stop : SliceMode) (scs : List Rat)
+    (hrank : ref.dims.length = ref.shape.length)
+    (hok : AxesOffBand stop ref.dims t.position t.extent (unitsOpt t.units) scs)
+    (href : refidx < nrefs) (hext : t.extent = [] ∨ t.extent.length = t.position.length) :
+    match Tag.taggedData t nrefs refidx ref stop with
+    | .ok v =>
+      (v.valid = true ∧ v.parent = ref.shape ∧ WindowsIn v.window ref.shape ∧
+        WindowsExact stop ref.dims ref.shape t.position t.extent scs v.window ∧
+        viewRead v none = .ok (.sel (windowSel v.window))) ∨
+      (v.valid = false ∧ EmptyAxis stop ref.dims t.position t.extent scs ∧ ∀ ix, viewRead v ix = .ok .empty)
+    | .error e =>
+      (e = .indexError ∧ EmptyAxis stop ref.dims t.position t.extent scs) ∨
+      (e = .outOfBounds ∧ BeyondAxis stop ref.dims ref.shape t.position t.extent scs) :=
+  C08_region t nrefs refidx ref stop scs hrank (axesOK_of_offBand hok) href hext
+
+/-- **Regions between samples and regions on samples.** A region whose two end points are sample coordinates of the
+descriptor (indices `≤ 10¹¹`: e.g. position = `position_at ka`, extent = the distance to `position_at kb`, in the
+dimension's unit) always meets the hypotheses, whatever the offset and the interval. -/
+theorem C08_axis_on_samples (stop : SliceMode) (dim : DimDesc) (p : Rat) (e? : Option Rat) (unit : Option Str)
+    (sc : Rat) (ka kb : Nat) (hd : DimOK dim) (hu : UnitRel unit dim sc)
+    (hka : ka ≤ 100000000000) (hkb : kb ≤ 100000000000)
+    (hs : (regionOf stop p e? sc).s = dimCoord dim ka) (he : (regionOf stop p e? sc).e = dimCoord dim kb) :
+    match axisSlice stop dim p e? unit with
+    | .ok w => AxisSpec dim (regionOf stop p e? sc) w
+    | .error err => err = .indexError ∧ ∀ i, InDom (dimDom dim) i → ¬ InRegion dim (regionOf stop p e? sc) i := by
+  refine C08_axis_off_band.2.2.2 stop dim p e? unit sc hd hu ?_ ?_
+  · rw [hs]; exact offBandAt_on_sample dim hd ka hka
+  · rw [he]; exact offBandAt_on_sample dim hd kb hkb
+
 /-- interval 1, offset 0, position 3 + 2⁻³⁰, no extent: the code selects sample 3 (inside the `np.isclose`
 band), whose coordinate 3 is not the position — inherited from C07 (open finding C07-tolerance-band) -/
 theorem C08_axis_full_counterexample : ¬ C08_axis_full := by
@@ -777,5 +832,34 @@ example : Tag.featureDataBy exTag exFeats (.text "beta".toList false) .exclusive
 example : Tag.featureDataBy exTag exFeats (.text "f1".toList true) .exclusive =
     .ok ⟨[6, 3], true, [(1, 3), (1, 2)]⟩ := by decide +kernel
 example : Tag.featureDataBy exTag exFeats .other .exclusive = .error .typeError := by decide +kernel
+
+/-- the hypotheses of `C08_region_off_band` are met by the example tag on the example array (ticks × labels) -/
+example : AxesOffBand .exclusive exArr.dims exTag.position exTag.extent (unitsOpt exTag.units) [1 / 1000, 1] := by
+  have hu : UnitRel (some "ms".toList) (.range [1, 2, 4, 7, 8, 10] (some "s".toList)) (1 / 1000) := by
+    have h := UnitRel.scaled (.range [1, 2, 4, 7, 8, 10] (some "s".toList)) "m".toList [] "s".toList []
+      (by decide) (by decide) (by decide) (by decide) (by intro n h; cases h) rfl
+    have e : tenPow (expOf "m".toList - expOf []) ^ powVal [] = (1 / 1000 : Rat) := by decide +kernel
+    rw [e] at h
+    exact h
+  refine AxesOffBand.pos _ _ _ _ _ _ _ _ (by decide) hu ?_ trivial trivial ?_
+  · show AscendingList _
+    unfold AscendingList
+    decide +kernel
+  · refine AxesOffBand.pos _ _ _ _ _ _ _ _ (by decide) (UnitRel.setFalsy 3 _ (Or.inr rfl)) trivial ?_ ?_
+      (AxesOffBand.nil _ _ _ _)
+    · show OffBandNum _ _
+      unfold OffBandNum Nix.C07.OffBand
+      decide +kernel
+    · show OffBandNum _ _
+      unfold OffBandNum Nix.C07.OffBand
+      decide +kernel
+
+/-- an end point half way between two samples is off the band; one 2⁻³⁰ beside a sample is not -/
+example : OffBandAt (.sampled 0 1 none) (7 / 2) := by
+  unfold OffBandAt OffBandNum Nix.C07.OffBand
+  decide +kernel
+example : ¬ OffBandAt (.sampled 0 1 none) (3 + 1 / 2 ^ 30) := by
+  unfold OffBandAt OffBandNum Nix.C07.OffBand
+  decide +kernel
 
 end Nix.C08
